@@ -123,6 +123,7 @@ std::vector<Sector> decode_mfm_track(const BitStream& bits, bool verbose)
   enum class MfmDecodeState { LookingForSectorHeader, LookingForRecord };
   Sector sec;
   int sec_size;
+  size_t header_end = 0;
   enum MfmDecodeState state = MfmDecodeState::LookingForSectorHeader;
   while (bits_avail)
     {
@@ -171,6 +172,7 @@ std::vector<Sector> decode_mfm_track(const BitStream& bits, bool verbose)
 		    if (decode_sector_address_and_size(header.data(), &sec.address, &sec_size,
 						       error))
 		      {
+			header_end = thisbit;
 			state = MfmDecodeState::LookingForRecord;
 			continue;
 		      }
@@ -186,6 +188,27 @@ std::vector<Sector> decode_mfm_track(const BitStream& bits, bool verbose)
 
 	case MfmDecodeState::LookingForRecord:
 	  {
+	    // The record belonging to a sector header follows it
+	    // closely (after gap 2 and the sync bytes).  A floppy disc
+	    // controller gives up on the sector if it has not seen the
+	    // data address mark within 43 bytes of the end of the
+	    // header, and so do we; an address mark further away than
+	    // that introduces something else (normally the header of
+	    // the next sector, if the record we wanted is unreadable).
+	    constexpr size_t mfm_cells_per_byte = 16u;
+	    constexpr size_t max_header_to_mark_cells = 43u * mfm_cells_per_byte;
+	    if (thisbit - header_end > max_header_to_mark_cells)
+	      {
+		if (verbose)
+		  {
+		    std::cerr << "The record for the sector with address "
+			      << sec.address << " is missing\n";
+		  }
+		// Look at these sync bytes again, as a possible sector header.
+		thisbit = found->first - 63u;
+		state = MfmDecodeState::LookingForSectorHeader;
+		continue;
+	      }
 	    // The data over which the CRC is computed is the three A1 bytes plus:
 	    // byte 0: marker byte (data_address_mark FB or deleted_data_address_mark F8)
 	    // byte 1: initial byte of sector (which has size SEC_SIZE)
